@@ -76,3 +76,47 @@ CHECKS["C12"] = {
     "outside": "more than 2 PDRs / 3 URRs; several rule IEs in one request; Create PDR/URR naming an id that already exists (stated assumption); data-plane faults (those are C01)",
     "assumptions": PFCP_ASSUME + ["model data plane: a successful RemoveURR/QueryURR returns exactly one report for that URR (go-gtp5gnl contract)"],
 }
+
+CHECKS["C01"] = {
+    "jobs": {
+        "quick": [{"pkg": "internal/pfcp", "entries": ["ZZ_C01_*"], "witnesses": 3, "max_paths": 400000, "budget_s": 600}],
+        "thorough": [{"pkg": "internal/pfcp", "entries": ["ZZ_C01_*"], "witnesses": 6, "max_paths": 5000000, "budget_s": 3000}],
+    },
+    "covers": {"all": ["ZZ_C01_FAR:C01.hist.done", "ZZ_C01_FAR:C01.est.done", "ZZ_C01_FAR:C01.mod.done", "ZZ_C01_FAR:C01.del.done",
+                       "ZZ_C01_FAR:C01.assoc.ended-session", "ZZ_C01_FAR:C01.reportrsp.done", "ZZ_C01_URR:C01.hist.done", "ZZ_C01_PDR:C01.hist.done", "ZZ_C01_PDRURR:C01.hist.done", "ZZ_C01_PDRURR:C01.del.done"]},
+    "bounds": {
+        "quick": "histories of 3 steps after an association, per rule kind (FAR, QER, BAR, URR, PDR): each step one of Association Setup (2 nodes), Establishment (0..2 Create IEs), Modification (one Create/Update/Remove/Query IE), Deletion, Session Report Response (SEID 0 or not); rule ids from {1,2} or unconstrained; one symbolic fault per create/update/query data-plane call",
+        "thorough": "same with 4 steps",
+    },
+    "outside": "longer histories; more than 2 addressed sessions; several rule kinds mixed in one history (each kind is a separate shard); remove failures (excluded by the property's fault model)",
+    "assumptions": PFCP_ASSUME + ["model data plane zzDP per DESIGN.md Appendix F.1 (a failed create leaves the rule possibly installed)"],
+}
+
+CHECKS["C05"] = {
+    "jobs": {
+        "quick": [{"pkg": "internal/pfcp", "entries": ["ZZ_C05_*"], "witnesses": 3, "max_paths": 200000}],
+        "thorough": [{"pkg": "internal/pfcp", "entries": ["ZZ_C05_*"], "witnesses": 8, "max_paths": 2000000}],
+    },
+    "covers": {"all": ["ZZ_C05_Modify:C05.mod.done", "ZZ_C05_Delete:C05.del.done", "ZZ_C05_Assoc:C05.assoc.done", "ZZ_C05_ReportRsp:C05.reportrsp.done",
+                       "ZZ_C05_Establish:C05.est.done", "ZZ_C05_Reports:C05.reports.done", "ZZ_C05_Takeover:C05.takeover.done"]},
+    "bounds": {
+        "quick": "frame check around one handler step: bystander session B (rules of all five kinds, one buffered packet, UR-SEQN 1) and acting session A on the same or the other node whose five rule ids and CP SEID are symbolic and may equal B's; steps: Modification with one Create/Update/Remove/Query IE of any kind and symbolic id, Deletion followed by SEID reuse, Association Setup of either node, SEID-0 report response, Establishment, kernel buffer/usage notification, takeover followed by re-association of any of three node ids",
+        "thorough": "same (the single-step bound is already complete over ids and SEIDs)",
+    },
+    "outside": "more than two sessions / two nodes; multi-step histories other than takeover+re-association and delete+reuse; B and A sharing both CP SEID and peer (then 'the session the report was sent for' is not determined by the message)",
+    "assumptions": PFCP_ASSUME,
+}
+
+CHECKS["C11"] = {
+    "jobs": {
+        "quick": [{"pkg": "internal/pfcp", "entries": ["ZZ_C11_*"], "witnesses": 3, "max_paths": 400000, "budget_s": 600}],
+        "thorough": [{"pkg": "internal/pfcp", "entries": ["ZZ_C11_*"], "witnesses": 8, "max_paths": 4000000, "budget_s": 3000}],
+    },
+    "covers": {"all": ["ZZ_C11_History:C11.hist.done", "ZZ_C11_History:C11.report-seen", "ZZ_C11_History:C11.recreated", "ZZ_C11_TwoSessions:C11.two.done"]},
+    "bounds": {
+        "quick": "histories of 3 steps over one session with <= 2 URRs (URR 1 starting at an arbitrary symbolic UR-SEQN, referenced by PDR 1): kernel/periodic notification with 1..2 reports naming arbitrary URR ids, Query/Update/Remove URR with symbolic id, Create URR, Remove PDR, session deletion; the model data plane returns 0..2 reports per query/update and 1..2 per removal; plus two sessions with equal URR ids for independence",
+        "thorough": "same with 4 steps",
+    },
+    "outside": "longer histories; more than 2 URRs per session; remove failures",
+    "assumptions": PFCP_ASSUME + ["relaxed model data plane (several reports for one URR in one response)"],
+}
